@@ -161,6 +161,7 @@ void EGLPNUM_TYPENAME_ILLprice_init_pricing_info (
 	pinf->d_scaleinf = 0;
 	pinf->pdinfo.norms = 0;
 	pinf->pdinfo.refframe = 0;
+	pinf->pdinfo.ninit = 0;
 	pinf->psinfo.norms = 0;
 	pinf->ddinfo.norms = 0;
 	pinf->ddinfo.refframe = 0;
